@@ -200,6 +200,28 @@ def parseClass (j : Json) : ClassO :=
 def parseCaObjects (j : Json) : List (Nat × ClassO) :=
   (jfields (jget j "classes")).map fun (k, v) => (enc k, parseClass v)
 
+/-- The trust anchor's objects (`ta_proxy.signer.objects`, a `TrustAnchorObjects`) as a key set. -/
+def parseTaSet (j : Json) : Option SetO :=
+  if jisNull (jget j "revision") then none else
+  some { base := enc (jstr (jget j "base_uri"))
+         crlName := enc (jstr (jpath j ["crl", "name"]))
+         mftName := enc (jstr (jpath j ["manifest", "name"]))
+         number := jnat (jpath j ["revision", "number"])
+         thisU := jnat (jpath j ["revision", "this_update"])
+         nextU := jnat (jpath j ["revision", "next_update"])
+         revs := (jarr (jget j "revocations")).map fun r => ⟨jtok (jget r "serial"), jnat (jget r "expires")⟩
+         pub := (jfields (jget j "issued")).map fun (k, v) =>
+           (enc (k ++ ".cer"), ⟨jtok (jget v "serial"), jnat (jpath v ["validity", "not_after"]), jtok (jget v "hash")⟩)
+         mftSerial := jtok (jpath j ["manifest", "serial"])
+         mftHash := jtok (jpath j ["manifest", "hash"])
+         mftExpires := jnat (jpath j ["manifest", "expires"])
+         crlSerial := match jpath j ["crl", "serial"] with
+           | .str s => s
+           | o => o.compress
+         crlHash := jtok (jpath j ["crl", "hash"])
+         crlExpires := jnat (jpath j ["crl", "expires"])
+         res := .all }
+
 def natLt (a b : Nat) : Bool := a < b
 
 def sortNats (l : List Nat) : List Nat := sortBy natLt l
